@@ -67,6 +67,12 @@ func (i *interpreter) intercept(fn *ssa.Function, info *fnInfo) handler {
 		info.handler = h
 		return h
 	}
+	for _, m := range stubMatchers {
+		if h := m(info.name); h != nil {
+			info.handler = h
+			return h
+		}
+	}
 	return nil
 }
 
@@ -289,10 +295,8 @@ func init() {
 	}
 	stubs["(*sync.Once).Do"] = func(fr *frame, args []value) value {
 		o := (*args[0].(*value)).(structure)
-		// Once{_ noCopy; done atomic.Uint32; m Mutex}
-		doneCell := &o[1]
-		d := (*doneCell).(structure)
-		// atomic.Uint32{_ noCopy; v uint32}
+		// Once{done atomic.Uint32; m Mutex}, atomic.Uint32{_ noCopy; v uint32}
+		d := o[0].(structure)
 		if d[len(d)-1].(uint32) == 0 {
 			d[len(d)-1] = uint32(1)
 			call(fr.i, fr, 0, args[1], nil)
@@ -342,6 +346,16 @@ func init() {
 			i.now = 1
 		}
 		return i.nowValue()
+	}
+	harnessAPI["vLocalZone"] = func(fr *frame, args []value) value {
+		fr.i.setLocalZone(args[0])
+		return nil
+	}
+	harnessAPI["vClockFixed"] = func(fr *frame, args []value) value {
+		i := fr.i
+		i.fixedNow = i.concreteInt(args[0])
+		i.hasFixedNow = true
+		return nil
 	}
 	harnessAPI["vClockAdvance"] = func(fr *frame, args []value) value {
 		i := fr.i
@@ -432,6 +446,10 @@ var _ = strings.HasPrefix
 const unixToInternal = (1969*365 + 1969/4 - 1969/100 + 1969/400) * 86400
 
 func (i *interpreter) nowValue() value {
+	if i.hasFixedNow {
+		timePkg := i.sh.Pkgs["time"]
+		return structure{uint64(0), i.fixedNow + unixToInternal, *i.globals[timePkg.Var("Local")]}
+	}
 	secName := fmt.Sprintf("now%d.sec", i.now)
 	var sec, nsec *smt.Term
 	if ix, ok := i.ps.inputIx[secName]; ok {
@@ -456,4 +474,24 @@ func (i *interpreter) nowValue() value {
 	timePkg := i.sh.Pkgs["time"]
 	local := *i.globals[timePkg.Var("Local")]
 	return structure{fromTerm(nsec, types.Uint64), fromTerm(ext, types.Int64), local}
+}
+
+// setLocalZone makes time.Local a fixed zone with the given offset in seconds
+// east of UTC (a concrete or symbolic int) and marks it initialised, so that
+// neither the tz database nor $TZ is consulted.
+func (i *interpreter) setLocalZone(off value) {
+	timePkg := i.sh.Pkgs["time"]
+	loc := (*i.globals[timePkg.Var("localLoc")]).(structure)
+	const alpha = -1 << 63
+	const omega = 1<<63 - 1
+	zones := []value{structure{"LOC", off, false}}
+	loc[0] = "Local"
+	loc[1] = zones
+	loc[2] = []value{structure{int64(alpha), uint8(0), false, false}}
+	loc[3] = ""
+	loc[4] = int64(alpha)
+	loc[5] = int64(omega)
+	loc[6] = &zones[0]
+	once := (*i.globals[timePkg.Var("localOnce")]).(structure)
+	once[0].(structure)[1] = uint32(1)
 }
